@@ -92,6 +92,54 @@ def digits_from_playback(rdir, only=None):
     return lits
 
 
+# valid programs whose token-level mutations (delete / duplicate / swap with the next token) are fed to the
+# real front end: an editor produces exactly such texts between two keystrokes
+MUTATION_SEEDS = {
+    "functions": "let pair x y = { 'first x, 'second y };\nlet id z = z;\nres / on get -> <pair num (id str)>;\n",
+    "recursion-and-refs": "let @n = { 'v str, 'next? @n };\nlet t = rec x { 'kids [x] };\nres /n/{ 'id int } on get, put : <@n> -> <status=200, t> :: <status=4XX, {}>;\n",
+    "operators-and-annotations": "# description: \"d\"\nlet a = num | str `title: \"t\"`;\nlet b = { 'x a } & { 'y! (a ~ int) };\nres /b?{ 'q str } on get -> <media=\"x/y\", headers={ 'h str }, b>;\n",
+    "modules-and-uris": "use \"m.oal\" as m;\nlet u = /a/{ 'k str }/b;\nlet r = u on get -> <m.t>;\nres r;\nres concat /x u on get -> <uri>;\n",
+}
+TOKEN = re.compile(r"\"[^\"]*\"|`[^`]*`|#[^\n]*\n|//[^\n]*|'[0-9a-zA-Z$@_-]+\??!?|@?[0-9a-zA-Z$_-]+|/[0-9a-zA-Z%~_.-]+|->|::|\s+|.", re.S)
+
+
+def mutation_texts():
+    out = {}
+    for name, src in MUTATION_SEEDS.items():
+        toks = TOKEN.findall(src)
+        idx = [i for i, t in enumerate(toks) if not t.isspace()]
+        for k, i in enumerate(idx):
+            out["%s/del%d" % (name, k)] = "".join(toks[:i] + toks[i + 1:])
+            out["%s/dup%d" % (name, k)] = "".join(toks[:i + 1] + [" "] + toks[i:])
+            if k + 1 < len(idx):
+                j = idx[k + 1]
+                sw = list(toks)
+                sw[i], sw[j] = sw[j], sw[i]
+                out["%s/swap%d" % (name, k)] = "".join(sw)
+    return out
+
+
+def run_mutations(drv, rdir):
+    """Every mutated text through the real single-file compile entry point (oal_wasm::compile, natively), in parallel."""
+    import concurrent.futures as cf
+    texts = mutation_texts()
+    crashes = []
+
+    def one(item):
+        nm, text = item
+        w = run_wasm(drv, text, timeout=30)
+        return nm, text, w
+
+    with cf.ThreadPoolExecutor(max_workers=max(2, (os.cpu_count() or 4) - 2)) as ex:
+        for nm, text, w in ex.map(one, texts.items()):
+            if w["rc"] != 0 or w["status"] is None:
+                fn = os.path.join(rdir, "mutation-" + nm.replace("/", "-") + ".oal")
+                with open(fn, "w", encoding="utf-8") as f:
+                    f.write(text)
+                crashes.append("oal_wasm::compile on mutation %s: exit %s (%s) [%s]" % (nm, w["rc"], (re.search(r"panicked at [^\n]+|overflowed its stack|TIMEOUT", w["out"]) or [""])[0], fn))
+    return crashes, len(texts)
+
+
 def crash_of(res):
     rc = res["rc"]
     return rc not in (0, 1)
@@ -114,6 +162,9 @@ def run_nasty(extra=None, tag="nasty"):
             crashes.append("oal-cli on '%s': exit %s (%s)" % (name, r["rc"], (re.search(r"panicked at [^\n]+|overflowed its stack|TIMEOUT", r["out"]) or [""])[0] if True else ""))
         if w["rc"] != 0 or w["status"] is None:
             crashes.append("oal_wasm::compile on '%s': exit %s (%s)" % (name, w["rc"], (re.search(r"panicked at [^\n]+|overflowed its stack|TIMEOUT", w["out"]) or [""])[0]))
+    mc, nmut = run_mutations(drv, rdir)
+    crashes += mc[:8]
+    detail["token-mutations"] = {"texts": nmut, "crashes": len(mc)}
     with open(os.path.join(rdir, "cmd"), "w") as f:
         f.write("#!/bin/sh\ncd /verif && exec ./check C04 --replay %s\n" % rdir)
     return crashes, rdir, detail
@@ -187,8 +238,11 @@ def check():
     children = c07.tag_children(enums_d, structs_d)
     obad = []
     c07.occurs_lemma(o, S, MC, E, children, obad)
+    # one unification step is sound (shared with C07): a wrong step accepts programs whose evaluation panics
+    c07.unify_step_lemmas(o, L, S, MC, E, obad)
     for b in obad:
-        bad.append(b[1])
+        if b[1] not in bad:
+            bad.append(b[1])
 
     syntax_contract(o, L, MS, MM, bad, on_sat)
     loader_lemmas(o, L, ML, MW, bad, on_sat)
@@ -199,7 +253,7 @@ def check():
     o.samples = [{"harness": h, "verdict": r["verdict"], "covers": r["covers"]} for h, r in kres.items()] + \
                 [{"query": q["name"], "verdict": q["verdict"]} for q in o.queries if q["engine"].startswith("mirsym")][:8]
     kani_failed = [h for h, r in kres.items() if r["verdict"] == "FAILED"]
-    if bad or kani_failed or thorough or os.environ.get("VERIF_REPLAY_ALWAYS"):
+    if True:   # the real-binary oracle is cheap: always run it (replay of a failing lemma, or translator validation)
         crashes, rdir, detail = run_nasty(extra_texts)
         o.extra["real_front_ends"] = {"texts": len(detail), "crashes": crashes, "detail": detail}
         if bad:
